@@ -105,6 +105,9 @@ ElemArgs(d, env, i, t) ==
 HasResCpus(fn) == "rescpus" \in DOMAIN fn /\ fn.rescpus # ""
 ResAtoms(d, env, i) == LET fn == d.funcs[i] IN
     IF HasResCpus(fn) THEN <<Atom("@cpus" \o ToString(Len(BoundOrEnv(d, env, i, fn.rescpus).a)))>> ELSE <<>>
+(* optional field `impl` = tag of the implementation (Pipeline.replace swaps in a function with the same signature and    *)
+(* another body): one more argument atom "@impl:<tag>", so that results of different implementations differ                *)
+ImplAtoms(fn) == IF "impl" \in DOMAIN fn /\ fn.impl # "" THEN <<Atom("@impl:" \o fn.impl)>> ELSE <<>>
 InternalAtoms(fn, t) ==
     LET ks == SelectSeq([k \in DOMAIN t |-> k], LAMBDA k : ~ExtMask(fn)[k]) IN [m \in DOMAIN ks |-> IdxAtom(t[ks[m]])]
 
@@ -115,8 +118,8 @@ OutVal(d, env, i, o) ==
     THEN LET sh == OutShape(d, env, i)
          IN  BuildArr(sh, <<>>, [t \in IndexSet(sh) |->
                  IF ReturnsNone(d, i) THEN NoneT                       \* None is an ordinary (stored, reloadable) element value
-                 ELSE Term(o, ElemArgs(d, env, i, t) \o ResAtoms(d, env, i) \o InternalAtoms(fn, t))])
-    ELSE LET args == [k \in DOMAIN fn.params |-> BoundOrEnv(d, env, i, fn.params[k])]
+                 ELSE Term(o, ElemArgs(d, env, i, t) \o ResAtoms(d, env, i) \o ImplAtoms(fn) \o InternalAtoms(fn, t))])
+    ELSE LET args == [k \in DOMAIN fn.params |-> BoundOrEnv(d, env, i, fn.params[k])] \o ImplAtoms(fn)
          IN  IF ReturnsNone(d, i) THEN NoneT
              ELSE IF Len(fn.internal) = 0 THEN Term(o, args)
              ELSE BuildArr(fn.internal, <<>>,
